@@ -97,8 +97,6 @@ Section FSProofs.
   Qed.
 
   (* the specification side, read off directly *)
-  Definition fresh_or_overwrite fs p (ow : bool) : bool := ow || negb (is_file fs p).
-
   Lemma write_spec_refuses fs p c : is_file fs p = true -> write_spec fs p false c = (fs, Some FileExists).
   Proof. intros H. unfold write_spec. now rewrite H. Qed.
   Lemma write_spec_accepts fs p ow c : fresh_or_overwrite fs p ow = true ->
@@ -299,7 +297,6 @@ Qed.
 Section ReadBack.
   Context {V X : Type}.
   Implicit Types (fs : fitsfs V X) (h : hdu V X).
-  Definition sole_index (k : Z) : bool := ((k =? 0) || (k =? -1))%Z.
   Lemma hdu_at_written fs p h k : lookup (files fs) p = Some [h] ->
     hdu_at fs p k = if sole_index k then FOk h else FRaise IndexErr.
   Proof.
